@@ -365,9 +365,22 @@ func clientTokens(log []*fakereg.Exchange) (reqs, resp []string) {
 	return
 }
 
-func relFirst(log []*fakereg.Exchange) bool {
-	for _, x := range log {
-		if x.HasLink && x.Dec.PreFirst != 0 {
+// followedRelFirst reports the mechanism of the known finding link-rel-ignored: some request
+// is the target of the rel="first" link-value that preceded the next link in the previous
+// response (instead of the target of the next link).
+func followedRelFirst(log []*fakereg.Exchange, n int) bool {
+	for i, x := range log {
+		if !x.HasLink || x.Dec.PreFirst == 0 || i+1 >= len(log) {
+			continue
+		}
+		want := url.Values{}
+		for _, kv := range x.PreQuery {
+			want.Add(kv.K, kv.V)
+		}
+		if n > 0 {
+			want["n"] = []string{strconv.Itoa(n)}
+		}
+		if log[i+1].Path == x.TPath && obsQuery(valuesKVs(log[i+1].Query)) == obsQuery(valuesKVs(want)) {
 			return true
 		}
 	}
@@ -380,9 +393,11 @@ func listCase(sc *Scenario) {
 	reg, pages, logAtFail, err := execute(sc)
 	outcome := classify(err)
 	fail := func(sig, msg string) {
-		if relFirst(reg.Log) {
-			// known finding: parseLink takes the first link-value whatever its relation type
-			sig, msg = "link-rel-ignored", "a rel=\"first\" link-value precedes the next link: "+msg
+		// known finding: parseLink takes the first link-value whatever its relation type.  Only the
+		// consequences of that mechanism (a request that IS the rel="first" target: pages re-read,
+		// the fake's request budget exhausted) carry its signature; every other failure keeps its own.
+		if (sig == "exactly-once" || sig == "next-request" || sig == "spurious-error") && followedRelFirst(reg.Log, sc.N) {
+			sig, msg = "link-rel-ignored", "a rel=\"first\" link-value precedes the next link and was followed: "+msg
 		}
 		run.OracleFail(id, sig, sc.Kind+" "+msg, sc)
 	}
@@ -1463,23 +1478,18 @@ func ociCase(ops []ociOp, last string, reopen bool) {
 		truth[tag] = d.Digest.String()
 		truth[d.Digest.String()] = d.Digest.String()
 	}
-	var lister interface {
+	type tagLister interface {
 		Tags(ctx context.Context, last string, fn func(tags []string) error) error
-	} = st
-	if reopen {
-		st2, err := oci.New(dir)
-		if err != nil {
-			panic(err)
-		}
-		lister = st2
 	}
-	var got []string
-	calls := 0
-	err = lister.Tags(ctx, last, func(tags []string) error {
-		calls++
-		got = append(got, tags...)
-		return nil
-	})
+	list := func(l tagLister) (got []string, calls int, err error) {
+		err = l.Tags(ctx, last, func(tags []string) error {
+			calls++
+			got = append(got, tags...)
+			return nil
+		})
+		return
+	}
+	got, calls, err := list(st)
 	// ground truth
 	var want, ents []string
 	keys := make([]string, 0, len(truth))
@@ -1508,26 +1518,45 @@ func ociCase(ops []ociOp, last string, reopen bool) {
 	if len(ents) > 0 {
 		e = strings.Join(ents, ",")
 	}
-	if !reopen { // a digest-named tag of another blob does not survive a reload unchanged; the model speaks of the resolver map
-		run.Case(id, "O "+e+" "+common.Hex(last), tok(got))
-	}
+	run.Case(id, "O "+e+" "+common.Hex(last), tok(got))
 	run.Count("oci_tags")
-	if err != nil || calls != 1 {
-		run.OracleFail(id, "oci-tags-call", fmt.Sprintf("Tags(last=%q): %d callbacks, err %v", last, calls, err), rep)
-	} else if !sort.StringsAreSorted(got) {
-		run.OracleFail(id, "oci-tags-sorted", fmt.Sprintf("Tags(last=%q) = %q", last, got), rep)
-	} else if reopen && strings.Join(noDigestRefs(got), "\x00") != strings.Join(noDigestRefs(want), "\x00") {
-		// a reference that is the digest string of ANOTHER blob is a caller inconsistency that a
-		// reload does not preserve (not a listing matter): such references are left out here
-		run.OracleFail(id, "oci-tags-set", fmt.Sprintf("reopened: Tags(last=%q) = %q, want %q", last, got, want), rep)
-	} else if !reopen && strings.Join(got, "\x00") != strings.Join(want, "\x00") {
-		run.OracleFail(id, "oci-tags-set", fmt.Sprintf("Tags(last=%q) = %q, want %q", last, got, want), rep)
-	} else if reopen {
+	judge := func(label string, got []string, calls int, err error, reloaded bool) {
+		switch {
+		case err != nil || calls != 1:
+			run.OracleFail(id, "oci-tags-call", fmt.Sprintf("%s: Tags(last=%q): %d callbacks, err %v", label, last, calls, err), rep)
+		case !sort.StringsAreSorted(got):
+			run.OracleFail(id, "oci-tags-sorted", fmt.Sprintf("%s: Tags(last=%q) = %q", label, last, got), rep)
+		case reloaded && strings.Join(noDigestRefs(got), "\x00") != strings.Join(noDigestRefs(want), "\x00"):
+			// a reference that is the digest string of ANOTHER blob is a caller inconsistency that a
+			// reload does not preserve (not a listing matter): such references are left out here
+			run.OracleFail(id, "oci-tags-set", fmt.Sprintf("%s: Tags(last=%q) = %q, want %q", label, last, got, want), rep)
+		case !reloaded && strings.Join(got, "\x00") != strings.Join(want, "\x00"):
+			run.OracleFail(id, "oci-tags-set", fmt.Sprintf("%s: Tags(last=%q) = %q, want %q", label, last, got, want), rep)
+		}
 		for _, g := range got {
 			if last != "" && g <= last {
-				run.OracleFail(id, "oci-tags-last", fmt.Sprintf("Tags(last=%q) = %q", last, got), rep)
+				run.OracleFail(id, "oci-tags-last", fmt.Sprintf("%s: Tags(last=%q) = %q", label, last, got), rep)
+				break
 			}
 		}
+	}
+	judge("Store", got, calls, err, false)
+	// the read-only store over the same layout (ReadOnlyStore.Tags), and a re-opened Store
+	ro, rerr := oci.NewFromFS(ctx, os.DirFS(dir))
+	if rerr != nil {
+		panic(rerr)
+	}
+	g2, c2, e2 := list(ro)
+	judge("ReadOnlyStore", g2, c2, e2, true)
+	run.Count("oci_tags_readonly")
+	if reopen {
+		st2, err := oci.New(dir)
+		if err != nil {
+			panic(err)
+		}
+		g3, c3, e3 := list(st2)
+		judge("reopened Store", g3, c3, e3, true)
+		run.Count("oci_tags_reopened")
 	}
 	if len(want) > 1 {
 		run.Nontrivial("O" + e + "|" + last)
